@@ -319,6 +319,9 @@ const CORPUS: &[&str] = &[
     "or_d(c:pk_h(K0),dv:older(5))",
     "and_v(v:pk(K0),or_d(j:pk(K1),dv:after(9)))",
     "and_b(pk(K0),a:or_i(0,1))",
+    "and_v(v:pk(K0),or_d(dv:older(5),dv:older(6)))",
+    // accepted by the 520-byte P2SH check on ext.pk_cost although it encodes to more (uncompressed pk_k counted as 65)
+    "and_v(v:pk(K6),and_v(v:pk(K7),and_v(v:pk(K6),and_v(v:pk(K7),and_v(v:pk(K6),and_v(v:pk(K7),and_v(v:pk(K6),and_v(v:older(1),and_v(v:older(2),and_v(v:older(3),and_v(v:older(4),and_v(v:after(65535),pk(K1)))))))))))))",
 ];
 
 fn corpus_ms<Ctx: ScriptContext>(w: &World, tap: bool, s: &str) -> Option<Miniscript<Key, Ctx>> {
@@ -327,12 +330,46 @@ fn corpus_ms<Ctx: ScriptContext>(w: &World, tap: bool, s: &str) -> Option<Minisc
         t = t.replace(&format!("K{}", i), &format!("{}", w.key(i, tap)));
     }
     t = t.replace("(H)", &format!("({})", w.sha256_img(0)));
-    Miniscript::<Key, Ctx>::from_str_insane(&t).ok()
+    let r = Miniscript::<Key, Ctx>::from_str_insane(&t);
+    if let (Err(e), true) = (&r, std::env::var("VERIF_DEBUG").is_ok()) {
+        eprintln!("corpus reject [{}] {}: {:?}", ctx_name::<Ctx>(), s, e);
+    }
+    r.ok()
+}
+
+/// Legacy scripts around the 520-byte P2SH limit, built bottom-up with `from_ast` (the path on which
+/// only `check_global_validity`, i.e. the comparison of ext.pk_cost with the limit, decides).
+fn near_limit(w: &World, out: &mut String) {
+    use miniscript::Terminal as T;
+    use std::sync::Arc;
+    let ms = |t: T<Key, Legacy>| Miniscript::<Key, Legacy>::from_ast(t).ok();
+    for n_unc in 5..=8usize {
+        for n_old in 0..=6u32 {
+            let build = || -> Option<Miniscript<Key, Legacy>> {
+                let mut acc = ms(T::Check(Arc::new(ms(T::PkK(w.key(1, false)))?)))?;
+                for j in 0..n_old {
+                    let o = ms(T::Older(RelLockTime::from_consensus(j + 1).ok()?))?;
+                    let v = ms(T::Verify(Arc::new(o)))?;
+                    acc = ms(T::AndV(Arc::new(v), Arc::new(acc)))?;
+                }
+                for j in 0..n_unc {
+                    let c = ms(T::Check(Arc::new(ms(T::PkK(w.key(6 + j % 2, false)))?)))?;
+                    let v = ms(T::Verify(Arc::new(c)))?;
+                    acc = ms(T::AndV(Arc::new(v), Arc::new(acc)))?;
+                }
+                Some(acc)
+            };
+            if let Ok(Some(m)) = catch_unwind(AssertUnwindSafe(build)) {
+                tree_line(w, &m, "nearlimit", out);
+            }
+        }
+    }
 }
 
 fn trees(seed: u64, n: u64) {
     let w = World::new();
     let mut out = String::new();
+    near_limit(&w, &mut out);
     for s in CORPUS {
         if let Some(m) = corpus_ms::<Segwitv0>(&w, false, s) {
             tree_line(&w, &m, "corpus", &mut out);
@@ -340,7 +377,8 @@ fn trees(seed: u64, n: u64) {
         if let Some(m) = corpus_ms::<Tap>(&w, true, s) {
             tree_line(&w, &m, "corpus", &mut out);
         }
-        if let Some(m) = corpus_ms::<Legacy>(&w, false, &s.replace("K0", "K6").replace("K1", "K7")) {
+        let legacy_s = if s.contains("K6") { s.to_string() } else { s.replace("K0", "K6").replace("K1", "K7") };
+        if let Some(m) = corpus_ms::<Legacy>(&w, false, &legacy_s) {
             tree_line(&w, &m, "corpus", &mut out);
         }
         if let Some(m) = corpus_ms::<BareCtx>(&w, false, s) {
